@@ -281,8 +281,8 @@ Qed.
 
 Lemma fold_loop px : forall dets st,
   fold_left (loop_step px) dets st =
-  mkLoop (l_calls st ++ map (fun d => (d_name d, px)) dets) (l_acc st ++ flat_map d_results dets)
-         (l_log st ++ flat_map tag_writes dets) (l_status st ++ map status_from_err dets).
+  mkLoop (l_calls st ++ map (fun d => (d_name d, px)) dets) (l_acc st ++ flat_map tag_results dets)
+         (l_log st) (l_status st ++ map status_from_err dets).
 Proof.
   induction dets as [|d ds IH]; intros st; cbn [fold_left map flat_map].
   - rewrite !app_nil_r. destruct st; reflexivity.
@@ -300,85 +300,45 @@ Proof.
   rewrite (H a (or_introl eq_refl)), IH; [reflexivity|]. intros x Hx. apply H. right. exact Hx.
 Qed.
 
-Lemma all_findings_acc dets : map snd (flat_map d_results dets) = all_findings dets.
-Proof. unfold all_findings. apply map_flat_map. Qed.
+Lemma expected_is_tag_results dets : flat_map tag_results dets = expected_findings dets.
+Proof. reflexivity. Qed.
+
+(* the content of the reported entries is what the detectors returned *)
+Lemma expected_content dets : map t_finding (expected_findings dets) = all_findings dets.
+Proof.
+  unfold expected_findings, all_findings. rewrite map_flat_map. apply flat_map_ext_in'. intros d _.
+  rewrite map_map. reflexivity.
+Qed.
+
+(* Run never writes through a detector's pointer *)
+Lemma run_loop_log px : forall dets c st, l_log (fst (run_loop px dets c st)) = l_log st.
+Proof.
+  induction dets as [|d ds IH]; intros c st; cbn [run_loop]; [reflexivity|].
+  destruct c; [reflexivity|]. rewrite IH. reflexivity.
+Qed.
+
+Lemma run_writes_nothing px dets c : rr_writes (detector_run px dets c) = [].
+Proof.
+  unfold detector_run. pose proof (run_loop_log px dets c loop_init) as H.
+  destruct (run_loop px dets c loop_init) as [st ab]. cbn [fst] in H. cbn [loop_init l_log] in H.
+  destruct ab; [exact H|]. destruct (validate_advisories _); exact H.
+Qed.
 
 (* shape of a run that is never cancelled *)
 Lemma run_no_cancel px dets :
   no_cancel dets = true ->
   detector_run px dets false =
   if advisories_consistent (all_findings dets)
-  then mkRun (map (fun d => (d_name d, px)) dets)
-             (map (fun r => mkTagged (snd r) (tag_lookup (fst r) (flat_map tag_writes dets))) (flat_map d_results dets))
-             (expected_status dets) None
-  else mkRun (map (fun d => (d_name d, px)) dets) [] (expected_status dets) (Some ErrAdvisory).
+  then mkRun (map (fun d => (d_name d, px)) dets) (expected_findings dets) (expected_status dets) None []
+  else mkRun (map (fun d => (d_name d, px)) dets) [] (expected_status dets) (Some ErrAdvisory) [].
 Proof.
   intros H. unfold detector_run. rewrite (run_loop_no_cancel px dets loop_init H), fold_loop.
-  cbn [loop_init l_calls l_acc l_log l_status app]. rewrite all_findings_acc.
+  cbn [loop_init l_calls l_acc l_log l_status app]. rewrite expected_is_tag_results, expected_content.
   destruct (validate_advisories (all_findings dets)) as [e|] eqn:E.
   - destruct (advisories_consistent (all_findings dets)) eqn:C; [|reflexivity].
     apply validate_iff_consistent in C. congruence.
   - apply validate_iff_consistent in E. rewrite E. reflexivity.
 Qed.
-
-(* --- tags *)
-Lemma no_cross_alias_prop : forall dets, no_cross_alias dets = true ->
-  forall d1 d2 p, In d1 dets -> In d2 dets -> In p (ptrs d1) -> In p (ptrs d2) -> d_name d1 = d_name d2.
-Proof.
-  induction dets as [|d ds IH]; intros H d1 d2 p H1 H2 P1 P2; [contradiction|].
-  cbn [no_cross_alias] in H. apply andb_true_iff in H as [Hd Hds]. rewrite forallb_forall in Hd.
-  assert (Hpair : forall d', In d' ds -> In p (ptrs d) -> In p (ptrs d') -> d_name d' = d_name d).
-  { intros d' Hd' Pa Pb. specialize (Hd d' Hd'). apply orb_true_iff in Hd as [Hn | Hs]; [apply N.eqb_eq, Hn|].
-    exfalso. apply negb_true_iff in Hs. unfold shares_ptr in Hs.
-    assert (existsb (fun p0 => memN p0 (ptrs d')) (ptrs d) = true); [|congruence].
-    apply existsb_exists. exists p. split; [exact Pa|]. unfold memN. apply existsb_exists. exists p.
-    split; [exact Pb | apply N.eqb_refl]. }
-  destruct H1 as [<- | H1], H2 as [<- | H2].
-  - reflexivity.
-  - symmetry. apply Hpair; assumption.
-  - apply Hpair; assumption.
-  - eapply IH; eassumption.
-Qed.
-
-Lemma in_tag_writes dets p n :
-  In (p, n) (flat_map tag_writes dets) <-> exists d, In d dets /\ In p (ptrs d) /\ n = d_name d.
-Proof.
-  rewrite in_flat_map. unfold tag_writes, ptrs. split.
-  - intros [d [Hd H]]. apply in_map_iff in H as [r [Hr Hin]]. injection Hr as <- <-.
-    exists d. split; [exact Hd|]. split; [apply in_map, Hin | reflexivity].
-  - intros [d [Hd [Hp ->]]]. exists d. split; [exact Hd|]. apply in_map_iff in Hp as [r [<- Hin]].
-    apply in_map_iff. exists r. split; [reflexivity | exact Hin].
-Qed.
-
-Lemma tag_lookup_on_D dets d r :
-  no_cross_alias dets = true -> In d dets -> In r (d_results d) ->
-  tag_lookup (fst r) (flat_map tag_writes dets) = [d_name d].
-Proof.
-  intros HD Hd Hr. unfold tag_lookup.
-  assert (Hp : In (fst r) (ptrs d)) by (apply in_map, Hr).
-  destruct (find _ (rev (flat_map tag_writes dets))) as [[p n]|] eqn:F.
-  - apply find_some in F as [F1 F2]. cbn [fst] in F2. apply N.eqb_eq in F2. subst p.
-    apply in_rev in F1. apply in_tag_writes in F1 as [d' [Hd' [Hp' ->]]]. cbn [snd].
-    f_equal. eapply no_cross_alias_prop; eassumption.
-  - exfalso. assert (Hin : In (fst r, d_name d) (rev (flat_map tag_writes dets))).
-    { apply -> in_rev. apply in_tag_writes. exists d. auto. }
-    pose proof (find_none _ _ F _ Hin) as Hn. cbn [fst] in Hn. rewrite N.eqb_refl in Hn. discriminate.
-Qed.
-
-Lemma findings_on_D dets :
-  no_cross_alias dets = true ->
-  map (fun r => mkTagged (snd r) (tag_lookup (fst r) (flat_map tag_writes dets))) (flat_map d_results dets)
-  = expected_findings dets.
-Proof.
-  intros HD. rewrite map_flat_map. unfold expected_findings. apply flat_map_ext_in'. intros d Hd.
-  apply map_ext_in. intros r Hr. rewrite (tag_lookup_on_D dets d r HD Hd Hr). reflexivity.
-Qed.
-
-(* even outside D the CONTENT of the findings is intact; only the tag can be wrong *)
-Lemma findings_content dets :
-  map t_finding (map (fun r => mkTagged (snd r) (tag_lookup (fst r) (flat_map tag_writes dets))) (flat_map d_results dets))
-  = all_findings dets.
-Proof. rewrite map_map. cbn [t_finding]. apply all_findings_acc. Qed.
 
 Lemma forallb_false_exists {A} (p : A -> bool) l : forallb p l = false -> exists x, In x l /\ p x = false.
 Proof.
